@@ -36,7 +36,7 @@ PROPS = {
         'assumptions': LIFE_ASSUME,
     },
     'C03': {
-        'tests': [life('TestC03', 600, 10000)],
+        'tests': [life('TestC03', 600, 6000)],
         'rule': "C01-style projects (1-5 processes, start failures, hold/ignore signal behaviours) with one ShutDownProject at a drawn position of a 0-8 step tape, in half of the cases preceded by a hold of a drawn process at a drawn yield point; non-trivial = at the shutdown some process was neither running nor terminal (pending, restarting, terminating) or a hold engaged; distinct = distinct scenario JSON",
         'floors': {'hold:': 0.05},
         'assumptions': LIFE_ASSUME,
